@@ -2,6 +2,7 @@ import ClusterVerif.Spec.C10
 import ClusterVerif.Model.C10Source
 import ClusterVerif.Gen.C10
 import ClusterVerif.Lemmas.C04
+import ClusterVerif.Lemmas.C10
 import Batteries.Data.Nat.Bitwise.Lemmas
 import Mathlib.Data.List.Basic
 
@@ -106,309 +107,301 @@ theorem stateSync_follower_noop (w : World) (pc : PeerCfg) (pre : PinMap)
     (h : pc.follower = true) : stateSync w pc pre = { st := pre, log := [] } := by
   unfold stateSync; simp [h]
 
-/-! ### re-pinning never removes an entry -/
-theorem keys_put_superset {m : PinMap} (hw : m.wf = true) (q : Pin) (c : Nat) (h : (m.get c).isSome = true) :
-    ((PinMap.put q m).get c).isSome = true := by
-  rw [get_put hw]
-  by_cases hq : q.cid = c
-  · simp [hq]
-  · simpa [hq] using h
+/-! ### one member, one event: the pinset afterwards is the commit of what was logged; nothing leaves it -/
 
-theorem repin_never_removes (pc : PeerCfg) (f : Nat) (ch : Chosen) (acc : Acc) (pin : Pin) (hw : acc.st.wf = true)
-    (c : Nat) (h : (acc.st.get c).isSome = true) :
-    ((repin pc f ch acc pin).st.wf = true) ∧ (((repin pc f ch acc pin).st.get c).isSome = true) := by
-  unfold repin
-  simp only
-  have hsh := C04.shape_pinOp { pc.base with follower := pc.follower } acc.st { pin with allocs := [] } [f] (ch pin.cid)
-  refine ⟨C04.shape_wf hsh hw, ?_⟩
-  rcases C04.pshape_pinOp { pc.base with follower := pc.follower } acc.st { pin with allocs := [] } [f] (ch pin.cid) with hr | ⟨q, _, hp⟩
-  · rw [C04.shape_refused hsh hr]; exact h
-  · rw [hp]; exact keys_put_superset hw _ c h
+/-- what `repinFromPeer` logs: nothing, or one pin for that cid -/
+theorem repin_logs_at_most_one (pc : PeerCfg) (f : Nat) (ch : Chosen) (st : PinMap) (x : Pin) :
+    (repinOut pc f ch st x).log = [] ∨ ∃ q : Pin, q.cid = x.cid ∧ (repinOut pc f ch st x).log = [.logPin q] :=
+  C04.lshape_pinOp pc.cfg st { x with allocs := [] } [f] (ch x.cid)
 
-theorem fold_keys {α} (step : Acc → α → Acc) (l : List α) (acc : Acc) (c : Nat)
-    (hstep : ∀ a x, a.st.wf = true → (a.st.get c).isSome = true →
-      (step a x).st.wf = true ∧ ((step a x).st.get c).isSome = true)
-    (hw : acc.st.wf = true) (h : (acc.st.get c).isSome = true) :
-    ((l.foldl step acc).st.wf = true) ∧ (((l.foldl step acc).st.get c).isSome = true) := by
-  induction l generalizing acc with
-  | nil => exact ⟨hw, h⟩
-  | cons x t ih =>
-    obtain ⟨h1, h2⟩ := hstep acc x hw h
-    exact ih (step acc x) h1 h2
+/-- any sweep of re-pins keeps the key set of the pinset: no cid leaves, none appears -/
+theorem sweep_repin_keys (cond : Pin → Bool) (pc : PeerCfg) (f : Nat) (ch : Chosen) (st : PinMap) (hw : st.wf = true) (c : Nat) :
+    ((sweepAll cond (repinOut pc f ch) st).st.get c).isSome = (st.get c).isSome := by
+  have hl := repinOut_local pc f ch
+  rw [(sweepAll_spec hl cond st hw).2.1, get_commitAll hw, sweepAll_forCid hl cond st hw c]
+  cases hg : st.get c with
+  | none => rfl
+  | some x =>
+    simp only
+    by_cases hx : cond x = true
+    · rw [if_pos hx]
+      rcases repin_logs_at_most_one pc f ch st x with h | ⟨q, _, h⟩ <;> rw [h] <;> rfl
+    · rw [if_neg hx]; rfl
 
-/-- No CID leaves the pinset while an alert is handled. -/
-theorem onAlert_keys (w : World) (pc : PeerCfg) (f : Nat) (ch : Chosen) (pre : PinMap) (hw : pre.wf = true)
-    (c : Nat) (h : (pre.get c).isSome = true) : ((onAlert w pc f ch pre).st.get c).isSome = true := by
+/-- No CID leaves the pinset while an alert is handled, and none is added. -/
+theorem onAlert_keys (w : World) (pc : PeerCfg) (f : Nat) (ch : Chosen) (pre : PinMap) (hw : pre.wf = true) (c : Nat) :
+    ((onAlert w pc f ch pre).st.get c).isSome = (pre.get c).isSome := by
   unfold onAlert
   split_ifs
-  · exact h
-  · refine (fold_keys _ pre { st := pre, log := [] } c ?_ hw h).2
-    intro a x haw hac
-    split_ifs
-    · exact repin_never_removes pc f ch a x haw c hac
-    · exact ⟨haw, hac⟩
+  · rfl
+  · exact sweep_repin_keys _ pc f ch pre hw c
 
-/-- No CID leaves the pinset while a peer is vacated (PeerRemove). -/
-theorem vacate_keys (pc : PeerCfg) (f : Nat) (ch : Chosen) (pre : PinMap) (hw : pre.wf = true)
-    (c : Nat) (h : (pre.get c).isSome = true) : ((vacate pc f ch pre).st.get c).isSome = true := by
+/-- No CID leaves the pinset while a peer is vacated (PeerRemove), and none is added. -/
+theorem vacate_keys (pc : PeerCfg) (f : Nat) (ch : Chosen) (pre : PinMap) (hw : pre.wf = true) (c : Nat) :
+    ((vacate pc f ch pre).st.get c).isSome = (pre.get c).isSome := by
   unfold vacate
   split_ifs
-  · exact h
-  · refine (fold_keys _ pre { st := pre, log := [] } c ?_ hw h).2
-    intro a x haw hac
-    split_ifs
-    · exact repin_never_removes pc f ch a x haw c hac
-    · exact ⟨haw, hac⟩
+  · rfl
+  · exact sweep_repin_keys _ pc f ch pre hw c
 
+/-! ### the members of a round as sweepers -/
 
-/-! ### re-pinning keeps every option and touches only that CID -/
-theorem setupFactors_noop (cfg : C04.Cfg) (p : Pin) (h1 : p.opts.rmin ≠ 0) (h2 : p.opts.rmax ≠ 0) (ha : p.allocs = []) :
-    C04.setupFactors cfg p = p := by
-  unfold C04.setupFactors C04.effRmin C04.effRmax
-  have e1 : (p.opts.rmin == 0) = false := by simpa using h1
-  have e2 : (p.opts.rmax == 0) = false := by simpa using h2
-  simp only [e1, e2, Bool.false_eq_true, if_false]
-  obtain ⟨cid, type, opts, depth, allocs, ref⟩ := p
-  simp only at ha
-  subst ha
-  split_ifs <;> rfl
+/-- the test a member applies to a pin when an alert for `f` arrives, with the two configuration switches -/
+def alertCondFull (f : Nat) (a : Actor) (x : Pin) : Bool :=
+  !(a.pc.follower || a.pc.disableRepin) && alertCond a.w a.pc f x
 
-theorem stored_with_allocs (p : Pin) (al : List Nat) (h : p.stored = p) :
-    ({ p with allocs := al } : Pin).stored = { p with allocs := al } := by
-  have : ({ p with allocs := al } : Pin).stored = { p.stored with allocs := al } := rfl
-  rw [this, h]
+def alertAct (f : Nat) (a : Actor) (st : PinMap) : Acc := onAlert a.w a.pc f a.ch st
 
-theorem repin_preserves_options (pc : PeerCfg) (f : Nat) (ch : Chosen) (acc : Acc) (p : Pin)
-    (hw : acc.st.wf = true) (hget : acc.st.get p.cid = some p) (hst : p.stored = p)
-    (h1 : p.opts.rmin ≠ 0) (h2 : p.opts.rmax ≠ 0) :
-    ∃ al, (repin pc f ch acc p).st.get p.cid = some { p with allocs := al } := by
-  unfold repin
-  simp only
-  unfold C04.pinOp
-  by_cases hf : pc.follower = true
-  · simp only [hf, if_true]
-    exact ⟨p.allocs, hget⟩
-  · simp only [hf, Bool.false_eq_true, if_false, List.isEmpty_cons]
-    unfold C04.pinBody
-    have hs : ∀ cfg' : C04.Cfg, C04.setupFactors cfg' ({ p with allocs := [] } : Pin)
-        = { p with allocs := [] } := fun cfg' => setupFactors_noop cfg' _ h1 h2 rfl
-    simp only [hs]
-    have hcid : ({ p with allocs := [] } : Pin).cid = p.cid := rfl
-    have logged : ∀ al, ((C04.logPin acc.st ({ p with allocs := al } : Pin)).post.get p.cid)
-        = some { p with allocs := al } := by
-      intro al
-      show (PinMap.put ({ p with allocs := al } : Pin).stored acc.st).get p.cid = _
-      rw [stored_with_allocs p al hst, get_put hw]
-      simp
-    split_ifs
-    · exact ⟨p.allocs, hget⟩
-    · exact ⟨p.allocs, hget⟩
-    · exact ⟨p.allocs, hget⟩
-    · exact ⟨[], logged []⟩
-    · -- allocate() consulted
-      have hk : C04.keepOrNew (acc.st.get p.cid) ({ p with allocs := [] } : Pin) [f] = { p with allocs := [] } := by
-        unfold C04.keepOrNew; rw [hget]; simp
-      simp only [hcid, hk]
-      split
-      · exact ⟨ch p.cid, logged _⟩
-      · exact ⟨p.allocs, hget⟩
-    · rename_i hne
-      have hk : C04.keepOrNew (acc.st.get p.cid) ({ p with allocs := [] } : Pin) [f] = { p with allocs := [] } := by
-        unfold C04.keepOrNew; rw [hget]; simp
-      simp only [hcid, hk] at hne
-      exact absurd rfl hne
+def alertSweeper (f : Nat) : Sweeper (fun st => st.wf = true) (alertAct f) where
+  cond := alertCondFull f
+  run := fun a => repinOut a.pc f a.ch
+  isLocal := fun a => repinOut_local a.pc f a.ch
+  eq := fun a st => by
+    unfold alertAct onAlert
+    by_cases h : (a.pc.follower || a.pc.disableRepin) = true
+    · rw [if_pos h]
+      have : alertCondFull f a = fun _ => false := by funext x; simp [alertCondFull, h]
+      rw [this, sweepAll_false]
+    · rw [if_neg h]
+      have : alertCondFull f a = alertCond a.w a.pc f := by
+        funext x
+        have h' : (a.pc.follower || a.pc.disableRepin) = false := by simpa using h
+        simp [alertCondFull, h']
+      rw [this]
 
-theorem repin_other_untouched (pc : PeerCfg) (f : Nat) (ch : Chosen) (acc : Acc) (p : Pin)
-    (hw : acc.st.wf = true) (c : Nat) (hc : c ≠ p.cid) : (repin pc f ch acc p).st.get c = acc.st.get c := by
-  unfold repin
-  simp only
-  have hsh := C04.shape_pinOp { pc.base with follower := pc.follower } acc.st { p with allocs := [] } [f] (ch p.cid)
-  exact C04.shape_frame hsh hw c (by simpa using hc)
+def syncCondFull (a : Actor) (x : Pin) : Bool := !a.pc.follower && syncCond a.w a.pc x
+def syncAct (a : Actor) (st : PinMap) : Acc := stateSync a.w a.pc st
 
-/-! ### the expiry sweep only unpins expired pins -/
-theorem mem_erase_sub {m : PinMap} {c : Nat} {q : Pin} (h : q ∈ PinMap.erase m c) : q ∈ m := by
-  unfold PinMap.erase at h; exact List.mem_of_mem_filter h
+def syncSweeper : Sweeper allData syncAct where
+  cond := syncCondFull
+  run := fun a => unpinOut a.pc
+  isLocal := fun a => unpinOut_local a.pc
+  eq := fun a st => by
+    unfold syncAct stateSync
+    by_cases h : a.pc.follower = true
+    · rw [if_pos h]
+      have : syncCondFull a = fun _ => false := by funext x; simp [syncCondFull, h]
+      rw [this, sweepAll_false]
+    · rw [if_neg h]
+      have : syncCondFull a = syncCond a.w a.pc := by
+        funext x
+        have h' : a.pc.follower = false := by simpa using h
+        simp [syncCondFull, h']
+      rw [this]
 
-theorem mem_foldl_erase_sub (cs : List Nat) {m : PinMap} {q : Pin} (h : q ∈ cs.foldl PinMap.erase m) : q ∈ m := by
-  induction cs generalizing m with
-  | nil => exact h
-  | cons c t ih => exact mem_erase_sub (ih h)
+theorem roundSeq_eq (f : Nat) (sched : List Actor) (pre : PinMap) : roundSeq f sched pre = roundWith (alertAct f) sched pre := rfl
+theorem snapLogs_eq (f : Nat) (sched : List Actor) (pre : PinMap) : snapLogs f sched pre = snapLogsWith (alertAct f) sched pre := rfl
+theorem roundSync_eq (sched : List Actor) (pre : PinMap) : roundSync sched pre = roundWith syncAct sched pre := rfl
+theorem snapLogsSync_eq (sched : List Actor) (pre : PinMap) : snapLogsSync sched pre = snapLogsWith syncAct sched pre := rfl
 
-/-- unpinning never adds entries -/
-theorem unpinOp_sub (cfg : C04.Cfg) (st : PinMap) (c : Nat) {q : Pin} (h : q ∈ (C04.unpinOp cfg st c).post) : q ∈ st := by
-  unfold C04.unpinOp at h
-  split_ifs at h
-  · exact h
-  · split at h
-    · exact h
-    · split at h
-      · exact mem_erase_sub h
-      · split at h
-        · exact h
-        · split at h
-          · exact mem_foldl_erase_sub _ h
-          · exact h
-      · exact h
+/-- One member handling one alert: the pinset it leaves is the commit of what it logged, and what it logged
+    for a cid is what `repinFromPeer` logs for the entry the pre-state holds, if the member's test passes. -/
+theorem onAlert_spec (a : Actor) (f : Nat) (pre : PinMap) (hw : pre.wf = true) (c : Nat) :
+    (alertAct f a pre).st = commitAll pre (alertAct f a pre).log ∧
+    forCid c (alertAct f a pre).log =
+      match pre.get c with
+      | some x => if alertCondFull f a x then (repinOut a.pc f a.ch pre x).log else []
+      | none => [] := by
+  rw [(alertSweeper f).eq]
+  exact ⟨(sweepAll_spec ((alertSweeper f).isLocal a) _ pre hw).2.1,
+    sweepAll_forCid ((alertSweeper f).isLocal a) _ pre hw c⟩
 
-theorem stateSync_only_expired (w : World) (pc : PeerCfg) (pre : PinMap) (c : Nat)
-    (h : C04.LogEntry.logUnpin c ∈ (stateSync w pc pre).log) (hdata : ∀ p ∈ pre, p.type = .dataT) :
-    ∃ p ∈ pre, p.cid = c ∧ expired p = true := by
-  unfold stateSync at h
-  split_ifs at h
-  · cases h
-  · suffices hgen : ∀ (l : List Pin) (acc : Acc),
-        (∀ q ∈ acc.st, q.type = .dataT) →
-        C04.LogEntry.logUnpin c ∈ (l.foldl (fun acc pin =>
-          if expired pin && isClosest w pc.self none pin.cid then
-            { st := (C04.unpinOp { pc.base with follower := pc.follower } acc.st pin.cid).post,
-              log := acc.log ++ (C04.unpinOp { pc.base with follower := pc.follower } acc.st pin.cid).log }
-          else acc) acc).log →
-        C04.LogEntry.logUnpin c ∈ acc.log ∨ ∃ p ∈ l, p.cid = c ∧ expired p = true by
-      rcases hgen pre { st := pre, log := [] } hdata h with h0 | h1
-      · cases h0
-      · exact h1
-    intro l
-    induction l with
-    | nil => intro acc _ hl; exact Or.inl hl
-    | cons x t ih =>
-      intro acc hd hl
-      rw [List.foldl_cons] at hl
-      by_cases hx : (expired x && isClosest w pc.self none x.cid) = true
-      · rw [if_pos hx] at hl
-        have hd' : ∀ q ∈ (C04.unpinOp { pc.base with follower := pc.follower } acc.st x.cid).post, q.type = .dataT :=
-          fun q hq => hd q (unpinOp_sub _ _ _ hq)
-        rcases ih _ hd' hl with h0 | ⟨p, hp, hpc, hpe⟩
-        · simp only [List.mem_append] at h0
-          rcases h0 with h0 | h0
-          · exact Or.inl h0
-          · right
-            refine ⟨x, by simp, ?_, by simp only [Bool.and_eq_true] at hx; exact hx.1⟩
-            rcases C04.shape_unpinOp { pc.base with follower := pc.follower } acc.st x.cid with
-              ⟨_, _, hlog⟩ | ⟨q, _, _, _, hlog⟩ | ⟨q, cs, hT, _, _, hlog⟩
-            · rw [hlog] at h0; cases h0
-            · rw [hlog] at h0; simp at h0
-            · rw [hlog] at h0
-              simp only [List.mem_map, C04.LogEntry.logUnpin.injEq] at h0
-              obtain ⟨k, hk, rfl⟩ := h0
-              have hkT := hT k hk
-              -- the shard group of a data pin is empty
-              have hsg : C04.targets.shardGroup { pc.base with follower := pc.follower } acc.st x.cid = [] := by
-                unfold C04.targets.shardGroup
-                cases hg : acc.st.get x.cid with
-                | none => rfl
-                | some e =>
-                  have := hd e (get_some_mem hg).1
-                  simp [this]
-              rw [hsg] at hkT
-              exact (List.mem_singleton.1 hkT).symm
-        · exact Or.inr ⟨p, List.mem_cons_of_mem _ hp, hpc, hpe⟩
-      · rw [if_neg hx] at hl
-        rcases ih _ hd hl with h0 | ⟨p, hp, hpc, hpe⟩
-        · exact Or.inl h0
-        · exact Or.inr ⟨p, List.mem_cons_of_mem _ hp, hpc, hpe⟩
+/-! ### rounds: who decides -/
 
+/-- "given members agree on the peerset": the members taking part in the round share one view `w` of the
+    peerset and of who is trusted, are trusted members of it other than the failed (or excluded) one, appear
+    once, and have pairwise distinct hashes (blake2b collision-freeness is this hypothesis) -/
+structure AgreedRound (w : World) (ex : Option Nat) (sched : List Actor) : Prop where
+  view : ∀ a ∈ sched, a.w = w
+  mem : ∀ a ∈ sched, a.pc.self ∈ w.members.map (·.1) ∧ some a.pc.self ≠ ex ∧ a.pc.self ∉ w.untrusted
+  once : (sched.map (·.pc.self)).Nodup
+  hashes : ∀ a ∈ sched, ∀ b ∈ sched, w.peerHash a.pc.self = w.peerHash b.pc.self → a.pc.self = b.pc.self
 
-/-! ### at most one member re-pins a CID when a peer is declared failed -/
+theorem AgreedRound.perm {w : World} {ex : Option Nat} {s s' : List Actor} (h : AgreedRound w ex s) (hp : s'.Perm s) :
+    AgreedRound w ex s' where
+  view := fun a ha => h.view a (hp.mem_iff.1 ha)
+  mem := fun a ha => h.mem a (hp.mem_iff.1 ha)
+  once := (hp.map _).nodup_iff.2 h.once
+  hashes := fun a ha b hb => h.hashes a (hp.mem_iff.1 ha) b (hp.mem_iff.1 hb)
 
-/-- A member only logs a pin for a CID it is closest to. -/
-theorem onAlert_log_closest (w : World) (pc : PeerCfg) (f : Nat) (ch : Chosen) (pre : PinMap) (q : Pin)
-    (h : C04.LogEntry.logPin q ∈ (onAlert w pc f ch pre).log) : isClosest w pc.self (some f) q.cid = true := by
-  unfold onAlert at h
-  split_ifs at h
-  · cases h
-  · suffices hgen : ∀ (l : List Pin) (acc : Acc),
-        C04.LogEntry.logPin q ∈ (l.foldl (fun acc pin =>
-          if pin.allocs.contains f && isClosest w pc.self (some f) pin.cid then repin pc f ch acc pin else acc) acc).log →
-        C04.LogEntry.logPin q ∈ acc.log ∨ isClosest w pc.self (some f) q.cid = true by
-      rcases hgen pre { st := pre, log := [] } h with h0 | h1
-      · cases h0
-      · exact h1
-    intro l
-    induction l with
-    | nil => intro acc hl; exact Or.inl hl
-    | cons x t ih =>
-      intro acc hl
-      rw [List.foldl_cons] at hl
-      rcases ih _ hl with h0 | h1
-      · by_cases hx : (x.allocs.contains f && isClosest w pc.self (some f) x.cid) = true
-        · rw [if_pos hx] at h0
-          unfold repin at h0
-          simp only [List.mem_append] at h0
-          rcases h0 with h0 | h0
-          · exact Or.inl h0
-          · right
-            rcases C04.lshape_pinOp { pc.base with follower := pc.follower } acc.st { x with allocs := [] } [f] (ch x.cid) with hl' | ⟨q', hq', hl'⟩
-            · rw [hl'] at h0; cases h0
-            · rw [hl'] at h0
-              simp only [List.mem_singleton, C04.LogEntry.logPin.injEq] at h0
-              subst h0
-              simp only [Bool.and_eq_true] at hx
-              have : q.cid = x.cid := hq'
-              rw [this]; exact hx.2
-        · rw [if_neg hx] at h0; exact Or.inl h0
-      · exact Or.inr h1
+/-- in an agreed round at most one member is closest to a cid -/
+theorem agreed_unique {w : World} {ex : Option Nat} {sched : List Actor} (hA : AgreedRound w ex sched) (c : Nat)
+    (a : Actor) (ha : a ∈ sched) (b : Actor) (hb : b ∈ sched)
+    (hca : isClosest w a.pc.self ex c = true) (hcb : isClosest w b.pc.self ex c = true) : a.pc.self = b.pc.self := by
+  obtain ⟨ma, ea, ta⟩ := hA.mem a ha
+  obtain ⟨mb, eb, tb⟩ := hA.mem b hb
+  exact closest_at_most_one w ex c a.pc.self b.pc.self ma mb ea eb ta tb (hA.hashes a ha b hb) hca hcb
 
-/-- Two different trusted members never both log a pin for the same CID in one alert round
-    (distinct hashes): the re-pin is done by at most one surviving peer. -/
-theorem alert_at_most_one_repinner (w : World) (f : Nat) (a b : PeerCfg) (cha chb : Chosen) (sa sb : PinMap)
-    (qa qb : Pin) (hcid : qa.cid = qb.cid)
-    (ha : a.self ∈ w.members.map (·.1)) (hb : b.self ∈ w.members.map (·.1))
-    (hfa : a.self ≠ f) (hfb : b.self ≠ f) (hta : a.self ∉ w.untrusted) (htb : b.self ∉ w.untrusted)
-    (hdist : w.peerHash a.self = w.peerHash b.self → a.self = b.self)
-    (hla : C04.LogEntry.logPin qa ∈ (onAlert w a f cha sa).log)
-    (hlb : C04.LogEntry.logPin qb ∈ (onAlert w b f chb sb).log) : a.self = b.self := by
-  have h1 := onAlert_log_closest w a f cha sa qa hla
-  have h2 := onAlert_log_closest w b f chb sb qb hlb
-  rw [hcid] at h1
-  exact closest_at_most_one w (some f) qb.cid a.self b.self ha hb
-    (by simpa using hfa) (by simpa using hfb) hta htb hdist h1 h2
+/-- a schedule splits at the one member that is closest to `c`, if there is one -/
+theorem decider_split {w : World} {ex : Option Nat} {sched : List Actor} (hA : AgreedRound w ex sched) (c : Nat) :
+    (∀ a ∈ sched, isClosest w a.pc.self ex c = false) ∨
+    ∃ s1 d s2, sched = s1 ++ d :: s2 ∧ isClosest w d.pc.self ex c = true ∧
+      (∀ a ∈ s1, isClosest w a.pc.self ex c = false) ∧ (∀ a ∈ s2, isClosest w a.pc.self ex c = false) := by
+  rcases split_at_unique (fun a : Actor => isClosest w a.pc.self ex c = true) (fun a => a.pc.self) sched hA.once
+      (fun a ha b hb => agreed_unique hA c a ha b hb) with h | ⟨s1, d, s2, e, hd, h1, h2⟩
+  · exact Or.inl (fun a ha => by simpa using h a ha)
+  · exact Or.inr ⟨s1, d, s2, e, hd, fun a ha => by simpa using h1 a ha, fun a ha => by simpa using h2 a ha⟩
 
-/-! Non-vacuity: three members with distinct hashes; exactly one passes `isClosest` for the CID. -/
-private def exW : World := { members := [(0, 12), (1, 7), (2, 33)], cidHash := [(5, 9)], untrusted := [] }
-example : isClosest exW 0 (some 1) 5 = true ∧ isClosest exW 2 (some 1) 5 = false ∧
-    isClosest exW 1 none 5 = false ∧ (others exW 0 (some 1)) = [2] := by decide
+theorem alert_idle {w : World} {f : Nat} {a : Actor} (hv : a.w = w) {c : Nat}
+    (h : isClosest w a.pc.self (some f) c = false) : ∀ x : Pin, x.cid = c → alertCondFull f a x = false := by
+  intro x hx
+  unfold alertCondFull alertCond
+  rw [hv, hx, h]; simp
 
-/-! ### the handler loop is memoryless -/
+theorem sync_idle {w : World} {a : Actor} (hv : a.w = w) {c : Nat}
+    (h : isClosest w a.pc.self none c = false) : ∀ x : Pin, x.cid = c → syncCondFull a x = false := by
+  intro x hx
+  unfold syncCondFull syncCond
+  rw [hv, hx, h]; simp
+/-! ### the round, cid by cid -/
 
-/-- The last alert of any history is handled exactly as `onAlert` prescribes for the pinset the
-    earlier alerts left behind, with the world of *its own* time. -/
-theorem handler_memoryless (pc : PeerCfg) (st : PinMap) (evs : List AlertEv) (w : World) (f : Nat) (ch : Chosen) :
-    handleAlerts pc st (evs ++ [.ping w f ch]) = (onAlert w pc f ch (handleAlerts pc st evs)).st := by
-  simp [handleAlerts, List.foldl_append, handleEv]
+/-- **Round composition.** In an agreed round, for every schedule (= order in which the members handle the
+    alert) and every cid `c`: either one member `d` is closest to `c`, and then over the whole round the
+    operations logged for `c` are exactly those `d` logs handling the alert alone on the pre-state, the entry
+    the round leaves for `c` is the one `d` alone leaves, and the snapshot discipline logs the same; or no
+    member of the schedule is closest, nothing is logged for `c` and its entry stays. -/
+theorem round_cid (w : World) (f : Nat) (sched : List Actor) (pre : PinMap)
+    (hA : AgreedRound w (some f) sched) (hw : pre.wf = true) (c : Nat) :
+    (∃ d ∈ sched, isClosest w d.pc.self (some f) c = true ∧
+      roundFor c (roundSeq f sched pre).2 = (forCid c (alertAct f d pre).log).map (fun e => (d.pc.self, e)) ∧
+      (roundSeq f sched pre).1.get c = (alertAct f d pre).st.get c ∧
+      roundFor c (snapLogs f sched pre) = roundFor c (roundSeq f sched pre).2) ∨
+    ((∀ a ∈ sched, isClosest w a.pc.self (some f) c = false) ∧
+      roundFor c (roundSeq f sched pre).2 = [] ∧ (roundSeq f sched pre).1.get c = pre.get c ∧
+      roundFor c (snapLogs f sched pre) = []) := by
+  rw [roundSeq_eq, snapLogs_eq]
+  rcases decider_split hA c with h | ⟨s1, d, s2, e, hd, h1, h2⟩
+  · right
+    have hid : ∀ a ∈ sched, ∀ x : Pin, x.cid = c → (alertSweeper f).cond a x = false :=
+      fun a ha => alert_idle (hA.view a ha) (h a ha)
+    obtain ⟨j1, j2⟩ := roundWith_idle (alertSweeper f) c sched pre hw hid
+    exact ⟨h, j1, j2, snap_idle (alertSweeper f) c sched pre hw hid⟩
+  · left
+    subst e
+    have hid1 : ∀ a ∈ s1, ∀ x : Pin, x.cid = c → (alertSweeper f).cond a x = false :=
+      fun a ha => alert_idle (hA.view a (by simp [ha])) (h1 a ha)
+    have hid2 : ∀ a ∈ s2, ∀ x : Pin, x.cid = c → (alertSweeper f).cond a x = false :=
+      fun a ha => alert_idle (hA.view a (by simp [ha])) (h2 a ha)
+    obtain ⟨j1, j2⟩ := roundWith_decider (alertSweeper f) c s1 s2 d pre hw hid1 hid2
+    refine ⟨d, by simp, hd, j1, j2, ?_⟩
+    rw [snap_decider (alertSweeper f) c s1 s2 d pre hw hid1 hid2, j1]
 
-/-- Earlier alerts that changed nothing (skipped, or handled while there was nothing to re-pin,
-    under whatever peerset) do not influence how a later alert is handled. -/
-theorem earlier_inert_alerts_irrelevant (pc : PeerCfg) (st : PinMap) (evs : List AlertEv) (w : World) (f : Nat)
-    (ch : Chosen) (hin : ∀ e ∈ evs, ∀ s, handleEv pc s e = s) :
-    handleAlerts pc st (evs ++ [.ping w f ch]) = (onAlert w pc f ch st).st := by
-  rw [handler_memoryless]
-  suffices h : handleAlerts pc st evs = st by rw [h]
-  induction evs generalizing st with
-  | nil => rfl
-  | cons e es ih =>
-    simp only [handleAlerts, List.foldl_cons]
-    rw [hin e (by simp) st]
-    exact ih st (fun e' he' => hin e' (by simp [he']))
+/-- the same, naming the decider: whoever of the schedule is closest to `c` is the one -/
+theorem round_by_decider (w : World) (f : Nat) (sched : List Actor) (pre : PinMap)
+    (hA : AgreedRound w (some f) sched) (hw : pre.wf = true) (c : Nat)
+    (d : Actor) (hd : d ∈ sched) (hc : isClosest w d.pc.self (some f) c = true) :
+    roundFor c (roundSeq f sched pre).2 = (forCid c (alertAct f d pre).log).map (fun e => (d.pc.self, e)) ∧
+    (roundSeq f sched pre).1.get c = (alertAct f d pre).st.get c ∧
+    roundFor c (snapLogs f sched pre) = roundFor c (roundSeq f sched pre).2 := by
+  rcases round_cid w f sched pre hA hw c with ⟨d', hd', hc', r⟩ | ⟨hn, _⟩
+  · have hs := agreed_unique hA c d hd d' hd' hc hc'
+    have : d = d' := List.inj_on_of_nodup_map hA.once hd hd' hs
+    subst this; exact r
+  · rw [hn d hd] at hc; cases hc
 
-theorem skipped_inert (pc : PeerCfg) (s : PinMap) : handleEv pc s .skipped = s := rfl
+/-- the pinset a serial round leaves is the commit, in acting order, of everything the members logged -/
+theorem round_state_is_commit (f : Nat) (sched : List Actor) (pre : PinMap) (hw : pre.wf = true) :
+    (roundSeq f sched pre).1.wf = true ∧
+    (roundSeq f sched pre).1 = commitAll pre (allEntries (roundSeq f sched pre).2) :=
+  roundWith_commit (alertSweeper f) sched pre hw
 
-private def exBase : C04.Cfg :=
-  { follower := false, defMin := 1, defMax := 1, desc := false, peers := [], paths := [], blocks := [] }
-private def exPc : PeerCfg := { self := 0, follower := false, disableRepin := false, base := exBase }
-example : handleAlerts exPc [] [.skipped, .ping exW 1 (fun _ => [])] = [] := by decide
+/-- what a member logs for one cid in one alert: at most one operation, and a pin -/
+theorem alertAct_forCid_shape (f : Nat) (a : Actor) (pre : PinMap) (hw : pre.wf = true) (c : Nat) :
+    forCid c (alertAct f a pre).log = [] ∨ ∃ q : Pin, q.cid = c ∧ forCid c (alertAct f a pre).log = [.logPin q] := by
+  rw [(onAlert_spec a f pre hw c).2]
+  cases hg : pre.get c with
+  | none => exact Or.inl rfl
+  | some x =>
+    simp only
+    by_cases hx : alertCondFull f a x = true
+    · rw [if_pos hx]
+      rcases repin_logs_at_most_one a.pc f a.ch pre x with h | ⟨q, hq, h⟩
+      · exact Or.inl h
+      · exact Or.inr ⟨q, by rw [hq, (get_some_mem hg).2], h⟩
+    · rw [if_neg hx]; exact Or.inl rfl
 
-/-! ### The anchored functions still read as the model was transcribed (regenerated from /repo on every run) -/
+/-- **Re-homed once.** Over a whole agreed round, in any order and under both commit disciplines, at most one
+    LogPin is issued for any cid, never an unpin, and only by the member closest to it. -/
+theorem round_at_most_one_repin (w : World) (f : Nat) (sched : List Actor) (pre : PinMap)
+    (hA : AgreedRound w (some f) sched) (hw : pre.wf = true) (c : Nat) :
+    roundFor c (roundSeq f sched pre).2 = [] ∨
+    ∃ d ∈ sched, ∃ q : Pin, q.cid = c ∧ isClosest w d.pc.self (some f) c = true ∧
+      roundFor c (roundSeq f sched pre).2 = [(d.pc.self, .logPin q)] := by
+  rcases round_cid w f sched pre hA hw c with ⟨d, hd, hc, r, _, _⟩ | ⟨_, r, _⟩
+  · rcases alertAct_forCid_shape f d pre hw c with h | ⟨q, hq, h⟩
+    · left; rw [r, h]; rfl
+    · right; exact ⟨d, hd, q, hq, hc, by rw [r, h]; rfl⟩
+  · exact Or.inl r
 
-theorem gen_source_alertsHandler : Gen.alertsHandler = Expected.alertsHandler := rfl
-theorem gen_source_repinFromPeer : Gen.repinFromPeer = Expected.repinFromPeer := rfl
-theorem gen_source_vacatePeer : Gen.vacatePeer = Expected.vacatePeer := rfl
-theorem gen_source_peerRemove : Gen.peerRemove = Expected.peerRemove := rfl
-theorem gen_source_stateSync : Gen.stateSync = Expected.stateSync := rfl
-theorem gen_source_distances : Gen.distances = Expected.distances := rfl
-theorem gen_source_getTrustedPeers : Gen.getTrustedPeers = Expected.getTrustedPeers := rfl
-theorem gen_source_isClosest : Gen.isClosest = Expected.isClosest := rfl
-theorem gen_source_convertPeerID : Gen.convertPeerID = Expected.convertPeerID := rfl
-theorem gen_source_convertKey : Gen.convertKey = Expected.convertKey := rfl
+/-- **Both commit disciplines agree.** Every member handles the alert against the same pre-state and the
+    logged operations reach the shared pinset afterwards in *any* order: the pinset is the one the serial
+    round leaves, and member by member the same operations were logged. -/
+theorem snap_same_state (w : World) (f : Nat) (sched : List Actor) (pre : PinMap)
+    (hA : AgreedRound w (some f) sched) (hw : pre.wf = true)
+    (order : List C04.LogEntry) (hp : order.Perm (allEntries (snapLogs f sched pre))) :
+    commitAll pre order = (roundSeq f sched pre).1 := by
+  obtain ⟨hwf, hcm⟩ := round_state_is_commit f sched pre hw
+  apply ext_of_wf (wf_commitAll hw _) hwf
+  intro c
+  rw [hcm, get_commitAll hw, get_commitAll hw]
+  have hsnap : forCid c (allEntries (snapLogs f sched pre)) = forCid c (allEntries (roundSeq f sched pre).2) := by
+    rw [← roundFor_entries, ← roundFor_entries]
+    rcases round_cid w f sched pre hA hw c with ⟨_, _, _, _, _, r⟩ | ⟨_, r1, _, r2⟩
+    · rw [r]
+    · rw [r1, r2]
+  have hperm : (forCid c order).Perm (forCid c (allEntries (roundSeq f sched pre).2)) := by
+    rw [← hsnap]; exact hp.filter _
+  have hshort : forCid c (allEntries (roundSeq f sched pre).2) = [] ∨
+      ∃ e, forCid c (allEntries (roundSeq f sched pre).2) = [e] := by
+    rw [← roundFor_entries]
+    rcases round_at_most_one_repin w f sched pre hA hw c with h | ⟨d, _, q, _, _, h⟩
+    · left; rw [h]; rfl
+    · right; exact ⟨_, by rw [h]; rfl⟩
+  rcases hshort with h | ⟨e, h⟩
+  · rw [h] at hperm ⊢; rw [hperm.eq_nil]
+  · rw [h] at hperm ⊢; rw [List.perm_singleton.1 hperm]
 
+/-- **The schedule does not matter.** Any two orders of the same members leave the same pinset. -/
+theorem round_schedule_irrelevant (w : World) (f : Nat) (sched sched' : List Actor) (pre : PinMap)
+    (hA : AgreedRound w (some f) sched) (hw : pre.wf = true) (hp : sched'.Perm sched) :
+    (roundSeq f sched' pre).1 = (roundSeq f sched pre).1 := by
+  have hA' := hA.perm hp
+  rw [← snap_same_state w f sched' pre hA' hw (allEntries (snapLogs f sched' pre)) (List.Perm.refl _)]
+  apply snap_same_state w f sched pre hA hw
+  unfold allEntries snapLogs snapLogsWith
+  exact (hp.map _).flatMap_right _
 
+/-- **No pin is ever removed (and none appears)**: the key set of the pinset is preserved by a round — whatever
+    the members' views, flags, order, allocator choices. -/
+theorem round_never_removes (f : Nat) (sched : List Actor) (pre : PinMap) (hw : pre.wf = true) (c : Nat) :
+    (roundSeq f sched pre).1.wf = true ∧ ((roundSeq f sched pre).1.get c).isSome = (pre.get c).isSome := by
+  rw [roundSeq_eq]
+  induction sched generalizing pre with
+  | nil => exact ⟨hw, rfl⟩
+  | cons a t ih =>
+    rw [roundWith_cons]
+    have hw' : (alertAct f a pre).st.wf = true := act_inv (alertSweeper f) a pre hw
+    obtain ⟨i1, i2⟩ := ih (alertAct f a pre).st hw'
+    exact ⟨i1, by rw [i2]; exact onAlert_keys a.w a.pc f a.ch pre hw c⟩
+
+/-- …and under the snapshot discipline no unpin is ever committed: every logged operation is a pin of a cid
+    the pre-state holds -/
+theorem round_logs_only_pins (f : Nat) (a : Actor) (pre : PinMap) (hw : pre.wf = true) :
+    ∀ e ∈ (alertAct f a pre).log, ∃ q : Pin, e = .logPin q ∧ (pre.get q.cid).isSome = true := by
+  intro e he
+  have hmem : e ∈ forCid (entryCid e) (alertAct f a pre).log := mem_forCid.2 ⟨he, rfl⟩
+  rw [(onAlert_spec a f pre hw (entryCid e)).2] at hmem
+  cases hg : pre.get (entryCid e) with
+  | none => rw [hg] at hmem; cases hmem
+  | some x =>
+    rw [hg] at hmem
+    simp only at hmem
+    split_ifs at hmem
+    · rcases repin_logs_at_most_one a.pc f a.ch pre x with h | ⟨q, hq, h⟩
+      · rw [h] at hmem; cases hmem
+      · rw [h, List.mem_singleton] at hmem
+        refine ⟨q, hmem, ?_⟩
+        have : q.cid = entryCid e := by rw [hmem]; rfl
+        rw [this, hg]; rfl
+    · cases hmem
 end CV.C10
